@@ -95,6 +95,13 @@ class G:
     def strlit(self):
         return self.rng.choice(["'text'", "'it''s'", "\"dq\"", "'a ! b'", "'x; y'", "'(1)'", "'&'"])
 
+    def io_items(self):
+        r = self.rng
+        pool = [r.choice(SCAL), "%s(%s)" % (r.choice(ARRS), self.iexpr(1)), "b2(%s, %s)" % (self.iexpr(1), self.iexpr(1)),
+                "(%s(k), k = 1, %s)" % (r.choice(ARRS), self.iexpr(1)), "((b2(i, j), i = 1, 3), j = 1, n)",
+                "rec%%fld(%s)" % self.iexpr(1), "str(%s:%s)" % (self.iexpr(2), self.iexpr(2))]
+        return ", ".join(r.choice(pool) for _ in range(r.randrange(1, 4)))
+
     # ---- helpers
     def lab(self):
         self.label += 10
@@ -141,12 +148,12 @@ class G:
             self.emit(depth, "call %s(%s)" % (r.choice(["sub1", "sub2"]), args) if args or r.random() < 0.5
                       else "call sub3", label, feat=k)
         elif k == "print":
-            self.emit(depth, "print *, %s, %s" % (self.strlit(), self.rexpr(1)), label, feat=k)
+            self.emit(depth, "print *, %s, %s" % (self.strlit(), self.io_items()), label, feat=k)
         elif k == "write":
             self.emit(depth, r.choice(["write (*, *) %s, %s", "write (6, 900) %s, %s", "write (unit=6, fmt=*) %s, %s"])
-                      % (self.rexpr(1), self.iexpr(1)), label, feat=k)
+                      % (self.rexpr(1), self.io_items()), label, feat=k)
         elif k == "read":
-            self.emit(depth, r.choice(["read (*, *) %s", "read (5, 900) %s"]) % r.choice(SCAL), label, feat=k)
+            self.emit(depth, r.choice(["read (*, *) %s", "read (5, 900) %s"]) % self.io_items(), label, feat=k)
         elif k == "if_stmt":
             self.emit(depth, "if (%s) %s = %s" % (self.lexpr(), r.choice(SCAL), self.rexpr(1)), label, feat=k)
         elif k == "continue":
@@ -198,7 +205,7 @@ class G:
             self.emit(depth, r.choice(["goto k", "go to k, (999)", "goto k (999, 999)"]), feat=k)
         elif k == "read_forms":
             self.emit(depth, r.choice(["read *, %s", "read 900, %s", "read (unit=5, fmt=*, iostat=ierr) %s",
-                                       "read (5, '(f8.3)', end=999, err=999) %s"]) % r.choice(SCAL), label, feat=k)
+                                       "read (5, '(f8.3)', end=999, err=999) %s"]) % self.io_items(), label, feat=k)
         elif k == "write_forms":
             self.emit(depth, r.choice(["write (6, '(a, i3)') %s, %s", "write (unit=6, fmt=900, iostat=ierr) %s, %s",
                                        "print 900, %s, %s", "print '(a)', %s, %s"]) % (self.strlit(), self.iexpr(1)),
